@@ -444,19 +444,12 @@ impl EventGen for IfElement {
 /// This does *not* check that the entire doc is valid, and is intended
 /// to be fast in common cases.
 fn is_real_svg(events: &InputList) -> bool {
-    for ev in events.iter() {
-        if let Ok(el) = SvgElement::try_from(ev.clone()) {
-            // "Real" SVG documents will have an `xmlns` attribute with
-            // the value "http://www.w3.org/2000/svg"
-            if el.name == "svg" {
-                if let Some(val) = el.get_attr("xmlns") {
-                    return val == "http://www.w3.org/2000/svg";
-                }
-            }
-            return false;
-        }
-    }
-    false
+    // "Real" SVG documents have a root `<svg>` element with an `xmlns` attribute
+    // of "http://www.w3.org/2000/svg"; the first element decides.
+    events
+        .iter()
+        .find_map(|ev| ev.starts_real_svg())
+        .unwrap_or(false)
 }
 
 impl EventGen for Tag {
